@@ -39,6 +39,12 @@
   harness-only: h5py's round trip of two arrays and an attribute (container fidelity; modelled as a record), `Plate.plate_id` of
         `screen.get_plate(x)` is `x` (object identity of plug-in arguments), float comparison `<` on binary64 for finite values and -inf is
         represented exactly by `Score` (rationals), NaN scores are outside the quantifier.
+  Props/C06Regress.lean (model growth after the seeded rounds):
+    "-inf" scores through save / load / combine / select → `C06_save_load_keeps_every_cell`, `C06_neg_inf_is_selected`
+    the text written by the command line is `-1` iff nothing is eligible (plate 0 is written `0`) → `C06_cli_writes_cliText`,
+        `C06_sentinel_iff_nothing_eligible` (with `toString_plate_id_ne_sentinel`; hypothesis: plate ids are non-negative)
+    Regression (not a clause): `C06_S7_load_drops_nonfinite_counterexample` (S7-C06: load keeps only finite scores)
+    Regression (not a clause): `C06_S5_falsy_plate_zero_counterexample` (S5-C06: `if not selected_plate_id` writes -1 for plate 0)
 -/
 import Batchie.Lemmas.Scores
 import Batchie.Lemmas.ScreenWF
